@@ -27,7 +27,7 @@ RULE = ('JSON: documents of 0-6 boards written by the real JsonBoardSettingWrite
         'comments, stray quotes and brackets for the reader model. Independent oracle: parse_board_settings == the generated '
         'boards. distinct = distinct op lines.')
 TRUSTED = ['the MiniPy semantics (Model/MiniPy.lean: value semantics, no aliasing) and the code translator (harness/translate_py.py), validated on every run by executing the translated program next to the real code (counters translated_*)',
-           're (TAG_PATTERN, REPLACE_PATTERN) is represented by hand-written scanners in Model/Pbn.lean (differential-tested here)',
+           're (TAG_PATTERN, REPLACE_PATTERN, _VALUE_OR_SPACE_PATTERN): the hand-written scanners of Model/Pbn.lean are PROVED equal, on every subject string, to the generic regex engine of Model/Regex.lean on the pattern texts of the source (Lemmas/RegexPbn.lean, Props/Regex.lean), and the translated parser is proved equal to the reader model (Translated/PbnParser*.lean); what remains assumed is that this engine is CPython\'s re on the subset (differential-tested on every C19 run, and here on the generated files)',
            'text-mode line iteration = split after LF (io.StringIO) / universal newlines then split (open())',
            'as C12 for the JSON half']
 ASSUMPTIONS = ['tag values contain no double quote, no line end and no comment opener ("; " or "{ "); table rows moreover no "[" '
